@@ -476,5 +476,44 @@ def rule_z7(repo):
                           {'simplify1', 'simplify', 'nnf'}, floor=35)
 
 
+def rule_z8(repo):
+    """The translation to Z3 names quantified variables apart from the free ones: nat and int share Z3's
+    integer sort and `x >= 0` is asserted per *name*.  (a) every fresh-name site of the translation follows the
+    discipline of sa/fresh.py; (b) the list of names to avoid that solve_core hands to the translation is computed
+    from the formulas that are translated (the assumptions and conclusion after the outer quantifiers were
+    stripped), not from an earlier form of the goal - the variables introduced for the stripped binders are free in
+    what is translated."""
+    from ..fresh import fresh_sites
+    from ..flow import flow_of
+    res = RuleResult('C06.Z8', 'quantified variables of the translation are named apart from every free variable of the translated formulas', floor=4)
+    for rel in ('prover/z3wrapper.py', 'prover/fologic.py'):
+        for f in repo.module(rel).all_funcs:
+            for c, avoid, how, ok, detail in fresh_sites(f):
+                res.add('%s :: %s :: fresh(%s)@%d' % (rel, f.qualname, src(c.args[0], 25), [x.lineno for x in ast.walk(f.node) if x is c][0] - f.node.lineno),
+                        ok, detail, '%s:%d' % (rel, c.lineno))
+    f = repo.func('prover/z3wrapper.py', 'solve_core')
+    flow = flow_of(f.node)
+    strip = [n for n in ast.walk(f.node) if isinstance(n, ast.Assign) and isinstance(n.value, ast.Call) and (call_name(n.value) or '').endswith('strip_all_implies')]
+    need(strip, 'solve_core: stripping of the outer quantifiers not found')
+    stripped = {x.id for x in ast.walk(strip[0].targets[0]) if isinstance(x, ast.Name) and x.id != '_'}
+    defs = [n for n in ast.walk(f.node) if isinstance(n, ast.Assign) and any(is_name(t, 'var_names') for t in n.targets)]
+    need(defs, 'solve_core: the list of names to avoid (var_names) not found')
+    # everything that flows into the list: assigned values, appended / extended values and the sequences such additions loop over
+    contrib = [d.value for d in defs]
+    for n in ast.walk(f.node):
+        if isinstance(n, ast.Call) and call_attr(n) in ('append', 'extend') and is_name(n.func.value, 'var_names') and n.args:
+            contrib.append(n.args[0])
+        if isinstance(n, ast.For) and any(isinstance(c, ast.Call) and call_attr(c) in ('append', 'extend') and is_name(c.func.value, 'var_names') for c in ast.walk(n)):
+            contrib.append(n.iter)
+    from_stripped = any(flow.names_closure(v) & stripped for v in contrib)
+    bad = [] if from_stripped else defs
+    res.add('prover/z3wrapper.py :: solve_core :: avoid-list-from-translated-formulas', not bad,
+            'var_names is computed from %s' % ', '.join(sorted(stripped)) if not bad else
+            'line %d `%s` is computed before the outer quantifiers are stripped: the variables introduced for them are missing, an inner '
+            'quantifier keeps the same name, and an outer int variable inherits `x >= 0` from an inner nat binder '
+            '(!x::int. (?x::nat. x > 0) --> x >= 0 was proved)' % (bad[0].lineno, src(bad[0], 60)), 'prover/z3wrapper.py:%d' % (bad[0] if bad else defs[0]).lineno)
+    return res
+
+
 def rules(repo):
-    return [rule_z1(repo)] + rule_z2_z3(repo) + [rule_z4(repo), rule_s1(repo), rule_s2(repo), rule_s3(repo), rule_z5(repo), rule_z6(repo), rule_z7(repo)]
+    return [rule_z1(repo)] + rule_z2_z3(repo) + [rule_z4(repo), rule_s1(repo), rule_s2(repo), rule_s3(repo), rule_z5(repo), rule_z6(repo), rule_z7(repo), rule_z8(repo)]
